@@ -246,6 +246,203 @@ func c06EditRandHistory(r *vfRand) (h c06History) {
 	return h
 }
 
+// c06EditShapes: the shapes of the constructed prelude histories
+// (edit-pre-*), each instantiated at random by c06EditShapedHistory (class
+// edit-shape-<shape>).
+var c06EditShapes = []string{"v4-to-a-exc", "v6-to-aaaa-exc", "v4-to-aaaa-exc", "v6-to-a-exc",
+	"wild-v4-to-a-exc", "wild-v6-to-aaaa-exc", "added-then-exc", "exc-to-addr", "cname-to-addr", "cname-to-exc",
+	"exact-wild", "v4-v6", "upd-missing", "add", "add-dup", "add-invalid", "del", "del-missing", "del-dup",
+	"case-target", "exc-then-delete-exc"}
+
+// c06EditShapedHistory: one of the prelude's edit shapes over a random name
+// (a.test, b.a.test, x.test), random addresses, a random wildcard covering the
+// name, and 0-3 surrounding entries (wildcard values of both families beside
+// the edited rule, so that what an exception lets through or hides is
+// visible), optionally followed by one more random request.
+func c06EditShapedHistory(r *vfRand, shape string) (h c06History) {
+	h.label = "edit-shape-" + shape
+	add := func(d, a string) c06Op { return c06Op{kind: "add", d: d, a: a} }
+	del := func(d, a string) c06Op { return c06Op{kind: "del", d: d, a: a} }
+	upd := func(d, a, nd, na string) c06Op { return c06Op{kind: "upd", d: d, a: a, nd: nd, na: na} }
+	bad := func(url, raw string) c06Op { return c06Op{kind: "bad", badURL: url, badRaw: raw} }
+	name := vfPick(r, []string{"a.test", "b.a.test", "x.test"})
+	wild := "*.test"
+	if name == "b.a.test" && r.Chance(2, 3) {
+		wild = "*.a.test"
+	}
+	v4, v4b := c06EditV4[0], c06EditV4[1]
+	if r.Chance(1, 2) {
+		v4, v4b = v4b, v4
+	}
+	v6, v6b := c06EditV6[0], c06EditV6[1]
+	if r.Chance(1, 2) {
+		v6, v6b = v6b, v6
+	}
+	cn := vfPick(r, []string{"x.test", "a.test", "other.example", "b.a.test"})
+	for cn == name {
+		cn = vfPick(r, []string{"x.test", "a.test", "other.example", "b.a.test"})
+	}
+	mixed := func(d string) string {
+		if r.Chance(1, 2) {
+			return c06MixCase(r, d)
+		}
+		return d
+	}
+	E := func(d, a string) { h.init = append(h.init, c06Entry{d, a}) }
+	// surroundings
+	around := func() {
+		if r.Chance(2, 3) {
+			E(wild, v4b)
+		}
+		if r.Chance(1, 2) {
+			E(wild, v6b)
+		}
+		if r.Chance(1, 4) {
+			d := c06EditRandDom(r)
+			if strings.ToLower(d) != name {
+				E(d, c06EditRandAns(r, d))
+			}
+		}
+	}
+	switch shape {
+	case "v4-to-a-exc":
+		E(name, v4)
+		around()
+		h.ops = []c06Op{upd(name, v4, mixed(name), "A")}
+	case "v6-to-aaaa-exc":
+		E(name, v6)
+		around()
+		h.ops = []c06Op{upd(name, v6, mixed(name), "AAAA")}
+	case "v4-to-aaaa-exc":
+		E(name, v4)
+		around()
+		h.ops = []c06Op{upd(name, v4, mixed(name), "AAAA")}
+	case "v6-to-a-exc":
+		E(name, v6)
+		around()
+		h.ops = []c06Op{upd(name, v6, mixed(name), "A")}
+	case "wild-v4-to-a-exc":
+		E(wild, v4)
+		if r.Chance(1, 2) {
+			E("*.test", v4b)
+		}
+		if r.Chance(1, 2) {
+			E(wild, v6)
+		}
+		h.ops = []c06Op{upd(wild, v4, mixed(wild), "A")}
+	case "wild-v6-to-aaaa-exc":
+		E(wild, v6)
+		if r.Chance(1, 2) {
+			E("*.test", v6b)
+		}
+		if r.Chance(1, 2) {
+			E(wild, v4)
+		}
+		h.ops = []c06Op{upd(wild, v6, mixed(wild), "AAAA")}
+	case "added-then-exc":
+		E(wild, v4b)
+		E(wild, v6b)
+		if r.Chance(1, 2) {
+			h.ops = []c06Op{add(mixed(name), v4), upd(name, v4, name, "A"), upd(name, "A", name, "AAAA")}
+		} else {
+			h.ops = []c06Op{add(mixed(name), v6), upd(name, v6, name, "AAAA"), upd(name, "AAAA", name, "A")}
+		}
+	case "exc-to-addr":
+		exc := vfPick(r, []string{"A", "AAAA"})
+		E(name, exc)
+		around()
+		h.ops = []c06Op{upd(name, exc, name, v4), upd(name, v4, mixed(name), v6)}
+	case "cname-to-addr":
+		E(name, cn)
+		E(cn, v4b)
+		around()
+		h.ops = []c06Op{upd(name, cn, name, v4), upd(name, v4, name, mixed(cn))}
+	case "cname-to-exc":
+		E(name, cn)
+		E(cn, v4b)
+		around()
+		exc := vfPick(r, []string{"A", "AAAA"})
+		h.ops = []c06Op{upd(name, cn, name, exc), upd(name, exc, name, name)}
+	case "exact-wild":
+		a := vfPick(r, []string{v4, v6, "A", "AAAA"})
+		E(name, a)
+		around()
+		h.ops = []c06Op{upd(name, a, wild, a), upd(wild, a, "q.a.test", a)}
+	case "v4-v6":
+		E(name, v4)
+		around()
+		h.ops = []c06Op{upd(name, v4, name, v6), upd(name, v6, name, v4b)}
+	case "upd-missing":
+		E(name, v4)
+		around()
+		h.ops = []c06Op{upd(name, v4b+"0", name, "A"), upd(cn, v4, name, "A"), upd(name, "A", name, v4)}
+	case "add":
+		around()
+		h.ops = []c06Op{add(mixed(name), v4), add(mixed(wild), mixed(cn)), add(cn, v6), add(name, vfPick(r, []string{"A", "AAAA"}))}
+	case "add-dup":
+		E(name, v4)
+		around()
+		h.ops = []c06Op{add(name, v4), add(strings.ToUpper(name), v4), del(name, v4)}
+	case "add-invalid":
+		E(name, v4)
+		around()
+		for i, n := 0, 2+r.Intn(3); i < n; i++ {
+			// bodies encoding/json rejects for the endpoint's request type
+			// ({"target": []} decodes into an add / delete request with
+			// empty texts, which add accepts: not generated there)
+			url := vfPick(r, []string{"/control/rewrite/add", "/control/rewrite/delete", "/control/rewrite/update"})
+			bodies := []string{`{"domain": 5}`, `not json`, ``, `[]`, `{`}
+			if strings.HasSuffix(url, "/update") {
+				bodies = []string{`{"target": []}`, `{"update": 7}`, `not json`, ``, `[]`, `{`}
+			}
+			h.ops = append(h.ops, bad(url, vfPick(r, bodies)))
+		}
+	case "del":
+		exc := vfPick(r, []string{"A", "AAAA"})
+		E(name, v4)
+		E(name, exc)
+		E(wild, cn)
+		around()
+		h.ops = []c06Op{del(name, exc), del(wild, cn), del(name, v4)}
+		vfShuffle(r, h.ops)
+	case "del-missing":
+		E(name, v4)
+		around()
+		h.ops = []c06Op{del(name, v4+"0"), del(cn, v4), del(name, "A")}
+	case "del-dup":
+		exc := vfPick(r, []string{"A", "AAAA"})
+		E(name, v4)
+		E(cn, v6)
+		E(name, v4)
+		h.ops = []c06Op{upd(name, v4, name, exc), add(name, exc), del(name, exc)}
+	case "case-target":
+		up := c06MixCase(r, name)
+		E(up, v4)
+		E("q.a.test", c06MixCase(r, cn))
+		h.ops = []c06Op{del(up, v4), upd(up, v4, name, "A"), del("q.a.test", c06MixCase(r, cn)),
+			upd("q.a.test", cn, "q.a.test", "A"), del(name, v4)}
+	case "exc-then-delete-exc":
+		E(name, v4)
+		E(name, v6)
+		around()
+		h.ops = []c06Op{upd(name, v6, name, "AAAA"), del(name, "AAAA"), add(name, "A"), del(name, v4)}
+	default:
+		panic("c06: unknown edit shape " + shape)
+	}
+	if r.Chance(1, 3) { // one more request, against what the table then is or not
+		d := c06EditRandDom(r)
+		switch r.Intn(3) {
+		case 0:
+			h.ops = append(h.ops, add(d, c06EditRandAns(r, d)))
+		case 1:
+			h.ops = append(h.ops, del(wild, v4b))
+		default:
+			h.ops = append(h.ops, upd(wild, v4b, wild, vfPick(r, []string{"A", "AAAA", v6})))
+		}
+	}
+	return h
+}
+
 type c06EditServer struct {
 	d        *DNSFilter
 	setts    *Settings
@@ -567,6 +764,10 @@ func c06EditStream(t *testing.T, out *vfOut, rnd *vfRand) {
 	hists := c06EditPrelude()
 	for i, n := 0, out.Scale(260, 6000); i < n; i++ {
 		hists = append(hists, c06EditRandHistory(rnd.Fork(0xED17+uint64(i))))
+	}
+	// the shapes of the constructed histories, instantiated at random
+	for i, n := 0, out.Scale(6, 120)*len(c06EditShapes); i < n; i++ {
+		hists = append(hists, c06EditShapedHistory(rnd.Fork(0x5A9E+uint64(i)), c06EditShapes[i%len(c06EditShapes)]))
 	}
 	qr := rnd.Fork(0xED06)
 
